@@ -55,14 +55,17 @@ def make_case(text, gold, units, family, consistent=True):
                 if got is not None and not (0.0 <= got <= 1.0):
                     return '%s_%s = %r outside [0,1]' % (k, name, got)
         if units:
-            nb_t = [t for t in text]
-            lt = eg.labels_of(text, units)
-            lg = eg.labels_of(gold, units)
+            # evaluate() drops the blank lines of text, gold and units independently and pairs what is left in order
+            nb_t, nb_g, nb_u = ([x for x in ls if x.strip()] for ls in (text, gold, units))
+            if not (len(nb_t) == len(nb_g) == len(nb_u)):
+                return 'harness: text, gold and units do not have the same number of non-blank lines'
+            lt = eg.labels_of(nb_t, nb_u)
+            lg = eg.labels_of(nb_g, nb_u)
             if lt is not None and lg is not None:
                 want = eg.reference_ari(lg, lt)
                 if not eg.close(ari, want):
                     return 'adjusted_rand_index = %r but the pair-counting definition gives %s' % (ari, want)
-                same = [eg.words_of(t) for t in text] == [eg.words_of(g) for g in gold]
+                same = [eg.words_of(t) for t in nb_t] == [eg.words_of(g) for g in nb_g]
                 if (abs(ari - 1.0) < 1e-12) != same:
                     return 'adjusted_rand_index = %r for %s segmentations' % (ari, 'identical' if same else 'different')
         # self score and swap symmetry, on the implementation
@@ -129,12 +132,21 @@ def main():
             text = [eg.respace(rng, t) for t in text]
             gold = [eg.respace(rng, g) for g in gold]
             fam += '-respaced'
-            u = None
+            # the units text keeps its single spaces or is respaced too: the index must not depend on it
+            if rng.random() < 0.5:
+                u = [eg.respace(rng, x) for x in units]
+                fam += '-units-respaced'
         if mode == 3:
             text = eg.interleave_blank(rng, text)
             gold = eg.interleave_blank(rng, gold)
             fam += '-blank'
-            u = None   # blank lines with units: C06's subject
+            # blank lines are dropped from text, gold and units independently: the units text with or without its own
+            if rng.random() < 0.5:
+                u = eg.interleave_blank(rng, units)
+                fam += '-units-blank'
+            if rng.random() < 0.25:
+                text = [eg.respace(rng, t) if t.strip() else t for t in text]
+                fam += '-respaced'
         cases.append(make_case(text, gold, u, fam))
     # malformed stream: inconsistent pairs (correspondence only; C06 judges them)
     for k in range(400 if ck.thorough else 60):
